@@ -86,8 +86,12 @@ def make_script(r, kind, unit, own_reply_msg):
     """one transaction's peer behaviour + what identifies the foreign frame"""
     framing = IO.framing_of(kind)
     x = r.random()
-    if x < 0.35:
+    if x < 0.30:
         return {'kind': 'own'}, None
+    if x < 0.35 and (kind == 'tcp' or kind.endswith('-over-tcp')):
+        # (TCP transports only: a serial line delivers a frame without gaps, TCP may segment anywhere)
+        # the conformant reply, arriving in two segments a fraction of the timeout apart (first segment shorter than a header)
+        return {'kind': 'split', 'k': r.randint(1, 7), 'delay': r.choice([0.05, 0.2, 0.4])}, None
     if x < 0.45:
         return {'kind': 'exception', 'code': r.choice([1, 2, 3, 4, 6, 10, 11])}, None
     fm, how = foreign_msg(r, own_reply_msg)
@@ -151,6 +155,15 @@ def regions(kind, framing, unit, m, own_frame, foreign):
 
 def run_history(run, case):
     """one client, a history of transactions; returns number of transactions that violated"""
+    if case.get('defaults_unit') and not case.get('_inner'):
+        # the application has set the process-wide default unit id to the unit it talks to (and still passes unit= explicitly)
+        from pymodbus.constants import Defaults
+        old = Defaults.UnitId
+        Defaults.UnitId = case['unit']
+        try:
+            return run_history(run, dict(case, _inner=True))
+        finally:
+            Defaults.UnitId = old
     kind, unit, txs = case['client'], case['unit'], case['transactions']
     framing = IO.framing_of(kind)
     peer = P.ScriptedPeer(framing, script=[t['behaviour'] for t in txs], timeout=1.0)
@@ -183,7 +196,7 @@ def run_history(run, case):
                 continue
             f = peer.requests[-1][1]
             beh = t['behaviour']
-            own_msg = P.conformant_reply(peer.regfile, f.msg) if beh['kind'] in ('own', 'stale+own', 'two', 'own+extra') else (
+            own_msg = P.conformant_reply(peer.regfile, f.msg) if beh['kind'] in ('own', 'split', 'stale+own', 'two', 'own+extra') else (
                 {'dir': RSP, 'fc': m['fc'] | 0x80, 'code': beh.get('code', 2)} if beh['kind'] == 'exception' else None)
             # note: conformant_reply on a lazy register file is idempotent for reads; for writes it re-applies the same values
             own_frame = ADU.build(framing, unit, S.encode(own_msg), tid=f.tid or 0) if own_msg else None
@@ -202,7 +215,7 @@ def run_history(run, case):
             run.count('result:%s' % cls.split(':')[0])
             ok = True
             why = None
-            positive = beh['kind'] in ('own', 'exception') and not poisoned
+            positive = beh['kind'] in ('own', 'exception', 'split') and not poisoned
             if cls.startswith('raised'):
                 ok, why = False, 'execute raised %r' % (exc,)
             elif cls == 'foreign':
@@ -263,7 +276,7 @@ def gen_case(r, kind, ntx, tid_start=None, clean_only=False):
         own = P.conformant_reply(regfile, m) or {'dir': RSP, 'fc': 3, 'registers': [1]}
         beh, foreign = make_script(r, kind, unit, own) if not clean_only else ({'kind': r.choice(['own', 'own', 'exception']), 'code': 2}, None)
         txs.append({'m': m, 'behaviour': beh, 'foreign': foreign})
-    return {'client': kind, 'unit': unit, 'transactions': txs, 'tid_start': tid_start}
+    return {'client': kind, 'unit': unit, 'transactions': txs, 'tid_start': tid_start, 'defaults_unit': r.random() < 0.2}
 
 
 def run(run):
